@@ -28,6 +28,9 @@ def make_coin(activation=4, prefetch=4):
         CHAIN_SIZE_HEIGHT = 2
         AVG_BLOCK_SIZE = 300
         PEERS = []
+        # the coin's default reorg limit; every harness Env sets REORG_LIMIT explicitly (1..50, on
+        # both sides of this), so the configured value is the one that must govern
+        REORG_LIMIT = 3
 
         @classmethod
         def prefetch_limit(cls, height):
